@@ -169,9 +169,10 @@ theorem exec_append_err (P : Program) :
       | succ f =>
         simp only [execStmts, List.cons_append] at h ⊢
         cases hs : execStmt P f s σ with
-        | fuel => cases h
-        | err m' => exact h
+        | fuel => rw [hs] at h; cases h
+        | err m' => rw [hs] at h; exact h
         | ok st' sg =>
+          rw [hs] at h
           cases sg with
           | exit => cases h
           | cycle => cases h
@@ -190,7 +191,7 @@ theorem unrollCopies_cons (v : String) (body : List Stmt) (k : Int) (ks : List I
 
 /-- results agree except for the loop variable; fuel exhaustion is not a result -/
 def ROff (v : String) : Res → Res → Prop
-  | .ok a s, .ok b s' => Off v a b ∧ s = .normal ∧ s' = .normal
+  | .ok a s, .ok b s' => Off v a b ∧ s = .normal ∧ s' = .normal ∧ ∃ k, lookupCell a v = some (.scalar .int (some (.int k)))
   | .err m, .err m' => m = m'
   | _, _ => False
 
@@ -228,7 +229,7 @@ theorem doIter_unroll (P : Program) (v : String) (body : List Stmt) (s : Int)
       simp only [doIter, hw] at hrun
       subst hrun
       refine ⟨1, .ok σ' .normal, by simp [iterVals, unrollCopies, execStmts], ?_⟩
-      exact ⟨hsim.toOff, rfl, rfl⟩
+      exact ⟨hsim.toOff, rfl, rfl, cur, hsim.val⟩
   | succ n' ihn =>
     intro cur f σ σ' r hoff hv hrun hfin
     cases f with
@@ -253,3 +254,97 @@ theorem doIter_unroll (P : Program) (v : String) (body : List Stmt) (s : Int)
         simp only at hrun
         subst hrun
         simp [Res.isFuel] at hfin
+
+/-! ### literal bounds -/
+
+theorem evalE_constInt (σ : St) (pos : List Nat) : ∀ (e : Ex) (l : Int), constInt e = some l → evalE σ pos e = some (.int l)
+  | .lit (.int n), l, h => by simp only [constInt] at h; cases h; simp [evalE]
+  | .neg e, l, h => by
+      simp only [constInt] at h
+      cases hc : constInt e with
+      | none => rw [hc] at h; cases h
+      | some n =>
+        rw [hc] at h
+        simp only [Option.map] at h
+        cases h
+        simp [evalE, evalE_constInt σ pos e n hc, Val.neg]
+  | .lit (.real _), _, h => by simp [constInt] at h
+  | .lit (.bool _), _, h => by simp [constInt] at h
+  | .var _, _, h => by simp [constInt] at h
+  | .idx _ _, _, h => by simp [constInt] at h
+  | .sec _ _, _, h => by simp [constInt] at h
+  | .not _, _, h => by simp [constInt] at h
+  | .bin _ _ _, _, h => by simp [constInt] at h
+  | .call _ _, _, h => by simp [constInt] at h
+
+theorem iterVals_eq (s : Int) : ∀ (n : Nat) (cur : Int),
+    iterVals cur s n = (List.range n).map fun (i : Nat) => cur + (i : Int) * s
+  | 0, cur => by simp [iterVals]
+  | n + 1, cur => by
+      rw [iterVals, iterVals_eq s n (cur + s), List.range_succ_eq_map]
+      simp only [List.map_cons, List.map_map]
+      congr 1
+      · simp
+      · apply List.map_congr_left
+        intro i _
+        simp only [Function.comp]
+        have e : ((Nat.succ i : Nat) : Int) = (i : Int) + 1 := by omega
+        rw [e, Int.add_mul, Int.one_mul]
+        omega
+
+theorem iterVals_doSeq (l h s : Int) : iterVals l s (tripCount l h s) = LokiModel.C10.doSeq l h s := by
+  rw [iterVals_eq]; rfl
+
+/-- what `unrollRange` returning a value list means: literal bounds, a non-zero literal (or absent) step, and the list is the
+sequence of values the DO loop visits -/
+theorem unrollRange_some {lo hi : Ex} {step : Option Ex} {ks : List Int} (h : unrollRange lo hi step = some ks) :
+    ∃ l hh s, constInt lo = some l ∧ constInt hi = some hh ∧ stepConst step = some s ∧ s ≠ 0 ∧
+      ks = iterVals l s (tripCount l hh s) := by
+  unfold unrollRange at h
+  cases hl : constInt lo with
+  | none => simp [hl] at h
+  | some l =>
+    cases hh : constInt hi with
+    | none => simp [hl, hh] at h
+    | some hv =>
+      cases step with
+      | none =>
+        simp only [hl, hh, stepConst, Option.bind] at h
+        rw [LokiModel.C10.C10_getPyrange_nostep] at h
+        cases h
+        exact ⟨l, hv, 1, rfl, rfl, rfl, by decide, (iterVals_doSeq l hv 1).symm⟩
+      | some e =>
+        cases hs : constInt e with
+        | none => simp [hl, hh, stepConst, hs] at h
+        | some s =>
+          simp only [hl, hh, stepConst, hs, Option.bind] at h
+          by_cases hs0 : s = 0
+          · subst hs0
+            simp [LokiModel.C10.getPyrange, LokiModel.C10.pyRange] at h
+          · rw [LokiModel.C10.C10_getPyrange_full l hv s hs0] at h
+            cases h
+            exact ⟨l, hv, s, rfl, rfl, hs, hs0, (iterVals_doSeq l hv s).symm⟩
+
+/-- the unrolling theorem for one loop, any two states that agree off the loop variable -/
+theorem unroll_loop (P : Program) (v : String) (lo hi : Ex) (step : Option Ex) (body : List Stmt) (ks : List Int)
+    (hr : unrollRange lo hi step = some ks) (hok : okSs v body = true) (hesc : escapes body = false)
+    (f : Nat) (σ σ' : St) (hoff : Off v σ σ') (hv : IntScalar σ v)
+    (r : Res) (hrun : execStmt P f (.doLoop v lo hi step body) σ = r) (hfin : r.isFuel = false) :
+    ∃ F r', execStmts P F (unrollCopies v body ks) σ' = r' ∧ ROff v r r' := by
+  obtain ⟨l, hh, s, hl, hhi, hst, hs0, rfl⟩ := unrollRange_some hr
+  cases f with
+  | zero => subst hrun; simp [execStmt, Res.isFuel] at hfin
+  | succ f0 =>
+    have e1 : (evalE σ [] lo).bind asInt = some l := by rw [evalE_constInt σ [] lo l hl]; rfl
+    have e2 : (evalE σ [] hi).bind asInt = some hh := by rw [evalE_constInt σ [] hi hh hhi]; rfl
+    cases step with
+    | none =>
+      simp only [stepConst] at hst
+      cases hst
+      simp only [execStmt, e1, e2] at hrun
+      exact doIter_unroll P v body 1 hok hesc _ l f0 σ σ' r hoff hv hrun hfin
+    | some e =>
+      simp only [stepConst] at hst
+      have e3 : (evalE σ [] e).bind asInt = some s := by rw [evalE_constInt σ [] e s hst]; rfl
+      simp only [execStmt, e1, e2, e3, hs0, if_false] at hrun
+      exact doIter_unroll P v body s hok hesc _ l f0 σ σ' r hoff hv hrun hfin
